@@ -81,6 +81,9 @@ type SearchOpts struct {
 	// result is attached to the Step as Aux. SetupFn is called on each fresh Env.
 	DoFn    func(e *Env, r Req) (Outcome, any)
 	SetupFn func(e *Env)
+	// CheckAliasing: verify that byte slices returned by earlier updates are
+	// not modified by later requests.
+	CheckAliasing bool
 	// PreStep is called directly before each explored Update.
 	PreStep func()
 	// OnEnv is called for every fresh environment (e.g. to wrap / observe).
@@ -227,6 +230,9 @@ func Search(o SearchOpts) (int, int64) {
 					}
 					vec := make([]string, 0, len(reqs))
 					before := e.Snap()
+					// Bytes handed out earlier must not change later (a
+					// returned slice aliasing an internal buffer).
+					var handedOut, handedCopy [][]byte
 					for _, r := range reqs {
 						var lc *LogCfg
 						if c, ok := e.LogByID[r.LogID]; ok {
@@ -251,6 +257,19 @@ func Search(o SearchOpts) (int, int64) {
 							stAfter, known = MState{}, true
 						}
 						transitions.Add(1)
+						if o.CheckAliasing {
+							for i := range handedOut {
+								if string(handedOut[i]) != string(handedCopy[i]) {
+									o.Run.Report("returned-bytes-mutated-later", fmt.Sprintf("bytes returned by an earlier Update changed after request %q was processed (the returned slice aliases internal state)", r.Label), nil)
+									handedOut, handedCopy = nil, nil
+									break
+								}
+							}
+							if out.Bytes != nil && len(handedOut) < 4 {
+								handedOut = append(handedOut, out.Bytes)
+								handedCopy = append(handedCopy, append([]byte(nil), out.Bytes...))
+							}
+						}
 						if o.OnStep != nil {
 							o.OnStep(&Step{Env: e, Log: o.Log, Cfg: lc, Path: path, Req: r, StBefore: st, StAfter: stAfter, Foreign: !known,
 								Exp: exp, Out: out, Before: before, After: after, T0: t0, T1: t1, Rep: j.rep, Aux: aux})
